@@ -12,7 +12,8 @@ import (
 //
 //	table 0  "shared" table (3 slots): imported from TabFrom ("tab"), or defined here and
 //	         exported as "tab" when ExpTab (an imported table can be re-exported)
-//	table 1  private table (3 slots), never exported
+//	table 1  second table (3 slots): private by default; exported as "tab1" when ExpTab1,
+//	         imported from Tab1From ("tab1") when set
 //	table 2  private scratch table (1 slot) used to call through the funcref global
 //	global g mutable funcref global: imported from GlobFrom ("g") or defined here
 //	         (initially null); exported as "g" when ExpGlob
@@ -39,10 +40,13 @@ type modSpec struct {
 	ElemImp  bool   `json:"elem_imp,omitempty"`  // the element segment names the IMPORTED function imp0 instead of f1
 	GlobInit int    `json:"glob_init,omitempty"` // own funcref global starts as 0: null, 1: ref.func f0, 2: ref.func imp0 (imported function)
 	MemFrom  string `json:"mem_from,omitempty"`  // module name the memory "mem" is imported from, "" = own (1 page, max 3)
+	Tab1From string `json:"tab1_from,omitempty"` // module name table 1 is imported from ("tab1"), "" = own
+	ExpTab1  bool   `json:"exp_tab1,omitempty"`  // export table 1 as "tab1" (a second exported table of the same owner)
+	Elem1    int    `json:"elem1,omitempty"`     // 0, or 1 + the slot of table 1 initialised with f1 by an active element segment
 }
 
 func (s modSpec) String() string {
-	return fmt.Sprintf("{id=%d imp=%q tab=%q exptab=%v glob=%q expglob=%v elem=%d elemimp=%v globinit=%d mem=%q}", s.ID, s.ImpFrom, s.TabFrom, s.ExpTab, s.GlobFrom, s.ExpGlob, s.Elem, s.ElemImp, s.GlobInit, s.MemFrom)
+	return fmt.Sprintf("{id=%d imp=%q tab=%q exptab=%v glob=%q expglob=%v elem=%d elemimp=%v globinit=%d mem=%q tab1=%q exptab1=%v elem1=%d}", s.ID, s.ImpFrom, s.TabFrom, s.ExpTab, s.GlobFrom, s.ExpGlob, s.Elem, s.ElemImp, s.GlobInit, s.MemFrom, s.Tab1From, s.ExpTab1, s.Elem1)
 }
 
 const tableSlots = 3
@@ -114,13 +118,25 @@ func buildModule(s modSpec) []byte {
 		m.Mems = append(m.Mems, memLimits)
 	}
 	m.Exports = append(m.Exports, wasmenc.Export{Name: "mem", Kind: wasmenc.KMem, Idx: 0})
+	// table indices: imported tables come first in the index space
 	tabType := wasmenc.TableType(fr, tableSlots, -1)
+	t0, t1, t2 := uint32(0), uint32(1), uint32(2)
+	if s.TabFrom == "" && s.Tab1From != "" {
+		t0, t1 = 1, 0
+	}
 	if s.TabFrom != "" {
 		m.Imports = append(m.Imports, wasmenc.Import{Mod: s.TabFrom, Name: "tab", Kind: wasmenc.KTable, Desc: tabType})
-	} else {
+	}
+	if s.Tab1From != "" {
+		m.Imports = append(m.Imports, wasmenc.Import{Mod: s.Tab1From, Name: "tab1", Kind: wasmenc.KTable, Desc: tabType})
+	}
+	if s.TabFrom == "" {
 		m.Tables = append(m.Tables, tabType)
 	}
-	m.Tables = append(m.Tables, tabType, wasmenc.TableType(fr, 1, -1))
+	if s.Tab1From == "" {
+		m.Tables = append(m.Tables, tabType)
+	}
+	m.Tables = append(m.Tables, wasmenc.TableType(fr, 1, -1))
 	var gG, gTag uint32
 	if s.GlobFrom != "" {
 		m.Imports = append(m.Imports, wasmenc.Import{Mod: s.GlobFrom, Name: "g", Kind: wasmenc.KGlobal, Desc: wasmenc.GlobalType(fr, true)})
@@ -177,19 +193,19 @@ func buildModule(s modSpec) []byte {
 		LocalGet(0).I32Const(3).Raw(wasmenc.OpI32Eq).If().RefFunc(ftrap).Return().End().
 		RefFunc(third).Bytes()))
 	exp("handout_slot", m.AddFunc([]byte{i32, i32}, []byte{fr}, nil, wasmenc.NewB().
-		LocalGet(0).Raw(wasmenc.OpI32Eqz).If().LocalGet(1).TableGet(0).Return().End().
-		LocalGet(1).TableGet(1).Bytes()))
+		LocalGet(0).Raw(wasmenc.OpI32Eqz).If().LocalGet(1).TableGet(t0).Return().End().
+		LocalGet(1).TableGet(t1).Bytes()))
 	exp("handout_glob", m.AddFunc(nil, []byte{fr}, nil, wasmenc.NewB().GlobalGet(gG).Bytes()))
 	exp("put", m.AddFunc([]byte{i32, i32, fr}, nil, nil, wasmenc.NewB().
-		LocalGet(0).Raw(wasmenc.OpI32Eqz).If().LocalGet(1).LocalGet(2).TableSet(0).Return().End().
-		LocalGet(1).LocalGet(2).TableSet(1).Bytes()))
+		LocalGet(0).Raw(wasmenc.OpI32Eqz).If().LocalGet(1).LocalGet(2).TableSet(t0).Return().End().
+		LocalGet(1).LocalGet(2).TableSet(t1).Bytes()))
 	exp("put_glob", m.AddFunc([]byte{fr}, nil, nil, wasmenc.NewB().LocalGet(0).GlobalSet(gG).Bytes()))
-	exp("call0", m.AddFunc([]byte{i32}, []byte{i32}, nil, wasmenc.NewB().LocalGet(0).CallIndirect(0, 0).Bytes()))
-	exp("call1", m.AddFunc([]byte{i32}, []byte{i32}, nil, wasmenc.NewB().LocalGet(0).CallIndirect(0, 1).Bytes()))
-	exp("isnull0", m.AddFunc([]byte{i32}, []byte{i32}, nil, wasmenc.NewB().LocalGet(0).TableGet(0).RefIsNull().Bytes()))
-	exp("isnull1", m.AddFunc([]byte{i32}, []byte{i32}, nil, wasmenc.NewB().LocalGet(0).TableGet(1).RefIsNull().Bytes()))
+	exp("call0", m.AddFunc([]byte{i32}, []byte{i32}, nil, wasmenc.NewB().LocalGet(0).CallIndirect(0, t0).Bytes()))
+	exp("call1", m.AddFunc([]byte{i32}, []byte{i32}, nil, wasmenc.NewB().LocalGet(0).CallIndirect(0, t1).Bytes()))
+	exp("isnull0", m.AddFunc([]byte{i32}, []byte{i32}, nil, wasmenc.NewB().LocalGet(0).TableGet(t0).RefIsNull().Bytes()))
+	exp("isnull1", m.AddFunc([]byte{i32}, []byte{i32}, nil, wasmenc.NewB().LocalGet(0).TableGet(t1).RefIsNull().Bytes()))
 	exp("callg", m.AddFunc(nil, []byte{i32}, nil, wasmenc.NewB().
-		I32Const(0).GlobalGet(gG).TableSet(2).I32Const(0).CallIndirect(0, 2).Bytes()))
+		I32Const(0).GlobalGet(gG).TableSet(t2).I32Const(0).CallIndirect(0, t2).Bytes()))
 	exp("gnull", m.AddFunc(nil, []byte{i32}, nil, wasmenc.NewB().GlobalGet(gG).RefIsNull().Bytes()))
 	calli := m.AddFunc(nil, []byte{i32}, nil, wasmenc.NewB().Call(third).Bytes())
 	exp("calli", calli)
@@ -206,7 +222,7 @@ func buildModule(s modSpec) []byte {
 	own["minit"] = m.AddFunc([]byte{i32}, nil, nil, addr(wasmenc.NewB()).I32Const(0).I32Const(8).MemoryInit(0).Bytes())
 	own["ddrop"] = m.AddFunc(nil, nil, nil, wasmenc.NewB().DataDrop(0).Bytes())
 	// element segment 1 is the passive one [f0 f1]: tinit(slot) copies f1 into table 0
-	own["tinit"] = m.AddFunc([]byte{i32}, nil, nil, wasmenc.NewB().LocalGet(0).I32Const(1).I32Const(1).TableInit(1, 0).Bytes())
+	own["tinit"] = m.AddFunc([]byte{i32}, nil, nil, wasmenc.NewB().LocalGet(0).I32Const(1).I32Const(1).TableInit(1, t0).Bytes())
 	own["edrop"] = m.AddFunc(nil, nil, nil, wasmenc.NewB().ElemDrop(1).Bytes())
 	for _, sg := range memSigs {
 		exp(sg.name, own[sg.name])
@@ -228,13 +244,16 @@ func buildModule(s modSpec) []byte {
 	exp("long", m.AddFunc([]byte{i32}, []byte{i32}, []byte{i32}, wasmenc.NewB().
 		Call(block).
 		Call(calli).LocalSet(1).
-		LocalGet(0).TableGet(0).RefIsNull().Raw(wasmenc.OpI32Eqz).If().
-		LocalGet(1).I32Const(7).Raw(wasmenc.OpI32Mul).LocalGet(0).CallIndirect(0, 0).Raw(wasmenc.OpI32Add).LocalSet(1).
+		LocalGet(0).TableGet(t0).RefIsNull().Raw(wasmenc.OpI32Eqz).If().
+		LocalGet(1).I32Const(7).Raw(wasmenc.OpI32Mul).LocalGet(0).CallIndirect(0, t0).Raw(wasmenc.OpI32Add).LocalSet(1).
 		End().
 		LocalGet(1).MemorySize().I32Const(1000000).Raw(wasmenc.OpI32Mul).Raw(wasmenc.OpI32Add).Bytes()))
 
 	if s.ExpTab {
-		m.Exports = append(m.Exports, wasmenc.Export{Name: "tab", Kind: wasmenc.KTable, Idx: 0})
+		m.Exports = append(m.Exports, wasmenc.Export{Name: "tab", Kind: wasmenc.KTable, Idx: t0})
+	}
+	if s.ExpTab1 {
+		m.Exports = append(m.Exports, wasmenc.Export{Name: "tab1", Kind: wasmenc.KTable, Idx: t1})
 	}
 	if s.ExpGlob {
 		m.Exports = append(m.Exports, wasmenc.Export{Name: "g", Kind: wasmenc.KGlobal, Idx: gG})
@@ -249,7 +268,14 @@ func buildModule(s modSpec) []byte {
 		if s.ElemImp && hasImp {
 			ef = imp0
 		}
-		m.Elems = append(m.Elems, wasmenc.ActiveElemFuncs(int32(s.Elem), []uint32{ef}))
+		if t0 == 0 {
+			m.Elems = append(m.Elems, wasmenc.ActiveElemFuncs(int32(s.Elem), []uint32{ef}))
+		} else {
+			m.Elems = append(m.Elems, wasmenc.ActiveElemFuncsTable(t0, wasmenc.NewB().I32Const(int32(s.Elem)).Bytes(), []uint32{ef}))
+		}
+	}
+	if s.Elem1 >= 1 && s.Elem1 <= tableSlots {
+		m.Elems = append(m.Elems, wasmenc.ActiveElemFuncsTable(t1, wasmenc.NewB().I32Const(int32(s.Elem1-1)).Bytes(), []uint32{f1}))
 	}
 	return m.Encode()
 }
